@@ -72,6 +72,8 @@ def setup():
 
     sys.addaudithook(_audit)
     _state["cc"] = cincoconfig
+    # relative paths handed to the library (e.g. a relative startdir) must land inside the sandbox
+    os.chdir(root)
     return cincoconfig
 
 
